@@ -443,10 +443,14 @@ def run(ctx):
     jobs = []
     for i, (c, p) in enumerate(pairs):
         jobs.append((f"alone{i}", payload_of([run_step(0, [c], p)]), "0"))
-    ndup = 1 if ctx.quick else 4
-    for i in range(ndup):
-        c, p = pairs[(i * 3 + 1) % len(pairs)]
-        jobs.append((f"again{i}", payload_of([run_step(0, [c], p)], trace=False, snapshot=False), str(4242 + i)))
+    # the interpreter's string-hash seed is not an input of a run: the same run in fresh processes that differ ONLY in
+    # PYTHONHASHSEED (the reference `alone` runs use 0) must give bit-identical results.  ARG under the nuclear-winter
+    # preset (scarce feed: species priorities matter) always, plus pairs drawn by seed
+    hs_targets = [("ARG", "nw_plain")] + ctx.rng.sample([x for x in pairs if x != ("ARG", "nw_plain")], 1 if ctx.quick else 4)
+    hs_seeds = ["1", "2", "5"] if ctx.quick else ["1", "2", "5", "7", "4242", "123456789"]
+    hs_jobs = [(f"hs{i}_{sd}", pr, sd) for i, pr in enumerate(hs_targets) for sd in hs_seeds]
+    for tag, (c, p), sd in hs_jobs:
+        jobs.append((tag, payload_of([run_step(0, [c], p)], trace=False, snapshot=False), sd))
     for k, b in enumerate(batches):
         jobs.append((f"batch{k}", payload_of(b), "0"))
     groups = art_plan(ctx)
@@ -454,7 +458,7 @@ def run(ctx):
         jobs += [(f"art{gi}_both", art_payload([a, b], preset), "0"), (f"art{gi}_a", art_payload([a], preset), "0"),
                  (f"art{gi}_b", art_payload([b], preset), "0")]
     ctx.log(f"{len(pairs)} pairs, {len(batches)} histories ({sum(len(b) for b in batches)} steps), {len(jobs)} fresh processes")
-    outs = launch_all(ctx, jobs)
+    outs = launch_all(ctx, jobs, workers=min(len(jobs), 28))
     ctx.log("implementation runs done")
 
     artifact_audit(ctx, groups, outs)
@@ -470,18 +474,27 @@ def run(ctx):
                      "trace_def": alone_trace_def(o, canon)}
         if not s["ok"]:
             ctx.log("note: run alone fails:", pr, s.get("err"))
-    for i in range(ndup):
-        pr = pairs[(i * 3 + 1) % len(pairs)]
-        s = outs[f"again{i}"]["steps"][0]
-        sg = sig_of(s, alone[pr]["cname"])
-        ctx.count(("again", pr), nontrivial=False)
-        if sg != alone[pr]["sig"]:
-            ctx.violation(f"C14:nondeterministic-alone:{pr[0]}/{pr[1]}",
-                          f"two fresh processes (PYTHONHASHSEED 0 vs {4242 + i}) give different results for {pr}: "
-                          f"{differing_parts(alone[pr]['res'], s['results'].get(alone[pr]['cname']))}",
+    hs_reported = set()
+    for tag, pr, sd in hs_jobs:
+        st = outs[tag]["steps"][0]
+        sg = sig_of(st, alone[pr]["cname"])
+        ctx.count(("hashseed", pr, sd), nontrivial=bool(st["ok"]))
+        if sg != alone[pr]["sig"] and pr not in hs_reported:
+            hs_reported.add(pr)
+            if st["ok"] and alone[pr]["step"]["ok"]:
+                parts = differing_parts(alone[pr]["res"], st["results"].get(alone[pr]["cname"]))
+            else:
+                parts = [f"outcome {alone[pr]['step'].get('err', 'completes')} vs {st.get('err', 'completes')}"]
+            field = (parts[0].split(" ")[0] if parts else "?")
+            ctx.violation(f"C14:result-depends-on-hash-seed@{field}",
+                          f"{pr[0]}/{pr[1]} computed alone in two fresh processes that differ only in PYTHONHASHSEED (0 vs {sd}) "
+                          f"gives different results: {parts[:5]}",
                           {"kind": "counterexample", "check": "differential", "presets": PRESETS,
-                           "history_A": [run_step(0, [pr[0]], pr[1])], "history_B": [run_step(0, [pr[0]], pr[1])],
-                           "hashseed_B": str(4242 + i), "target": list(pr)})
+                           "history_A": [run_step(0, [pr[0]], pr[1])], "hashseed_A": "0",
+                           "history_B": [run_step(0, [pr[0]], pr[1])], "hashseed_B": sd, "target": list(pr),
+                           "differs": parts, "requires": "identical digests whatever the interpreter's hash seed"})
+    ctx.notes["hash_seed_audit"] = {"targets": [list(x) for x in hs_targets], "seeds": ["0"] + hs_seeds,
+                                    "fresh_processes": len(hs_jobs), "differences": len(hs_reported)}
 
     # ---- differential audit (the property itself, on the implementation)
     ndiff = 0
@@ -717,7 +730,7 @@ def replay(rep):
     PRESETS = rep.get("presets", PRESETS)
     check = rep.get("check")
     if check == "differential":
-        outs = launch_all(ctx, [("A", payload_of(rep["history_A"], trace=False, snapshot=False), "0"),
+        outs = launch_all(ctx, [("A", payload_of(rep["history_A"], trace=False, snapshot=False), rep.get("hashseed_A", "0")),
                                 ("B", payload_of(rep["history_B"], trace=False, snapshot=False), rep.get("hashseed_B", "0"))])
         sb = outs["B"]["steps"][-1]
         cname = list(sb["results"].keys())[0] if sb["results"] else None
